@@ -510,7 +510,34 @@ func genCase(t *rapid.T) Case {
 				x.idb, x.vis = saved, savedVis
 				sm.Nodes = append(sm.Nodes, top)
 			}
-			if len(sm.Groupings) > 0 || len(sm.Nodes) > 0 {
+			// augments written in the submodule: of the module's own tree through the belongs-to prefix, of the tree of a
+			// module that both import, and of the tree of a module that only the submodule imports
+			saved := x.idb
+			x.idb = ""
+			if g.Chance(1, 3, "subownaug") {
+				a := &sg.Augment{Target: "/" + m.Prefix + ":" + m.Nodes[0].Name, Kids: []*sg.Node{x.leaf(x.id("soa"))}}
+				a.Kids[0].Mandatory = ""
+				sm.Augments = append(sm.Augments, a)
+			}
+			for j, om := range mods {
+				if j >= i || !g.Chance(1, 2, "subxaug") {
+					continue
+				}
+				have := false
+				for _, imp := range sm.Imports {
+					if imp.Mod == om.Name {
+						have = true
+					}
+				}
+				if !have {
+					sm.Imports = append(sm.Imports, sg.Import{Mod: om.Name, Prefix: om.Prefix})
+				}
+				a := &sg.Augment{Target: "/" + om.Prefix + ":" + om.Nodes[0].Name, Kids: []*sg.Node{x.leaf(x.id("sxa"))}}
+				a.Kids[0].Mandatory = ""
+				sm.Augments = append(sm.Augments, a)
+			}
+			x.idb = saved
+			if len(sm.Groupings) > 0 || len(sm.Nodes) > 0 || len(sm.Augments) > 0 {
 				m.Includes = []string{sm.Name}
 				subs[m.Name] = sm
 			} else {
